@@ -287,12 +287,17 @@ def check_history(desc):
 CHECKS = {"history": check_history}
 
 
-def shards(tier):
-    n = 1 if tier == "quick" else 8
+def shards(tier, seed=1):
+    from vlib.pbt import rot
+
+    q = tier == "quick"
+    n = 1 if q else 8
+    groups = [["laplace", "sparse"], ["helmholtz"], ["modified", "sparse"], ["laplace"]]
     out = []
-    for fam_group in (["laplace"], ["helmholtz"], ["laplace", "sparse"], ["modified", "sparse"]):
-        for fmm in (False, True):
-            out.append({"check": "history", "fams": fam_group, "fmm": fmm, "examples": (14 if fmm else 25) * n, "budget_s": 170 * n})
+    for g in (rot(groups, seed, 2) if q else groups):
+        out.append({"check": "history", "fams": g, "fmm": False, "examples": 30 * n, "budget_s": 300 * n})
+    for g in (rot(groups, seed + 1, 2) if q else groups):
+        out.append({"check": "history", "fams": g, "fmm": True, "examples": 18 * n, "budget_s": 300 * n})
     return out
 
 
@@ -356,5 +361,7 @@ def _fix_pot(d):
 
 
 def required_labels(tier):
-    return ["history", "dense", "fmm", "sparse", "explicit_parameters", "global_parameters", "global_quadrature_change", "cache_clear",
-            "mass_matrix", "potential_dense", "potential_fmm", "single_precision", "explicit_params_mutated", "identical_arrays_second_grid"]
+    base = ["history", "dense", "fmm", "explicit_parameters", "global_parameters", "global_quadrature_change", "cache_clear", "potential_dense"]
+    return base if tier == "quick" else base + ["sparse", "mass_matrix", "potential_fmm", "single_precision", "explicit_params_mutated", "identical_arrays_second_grid"]
+
+
